@@ -77,6 +77,14 @@ func (t *tdrv) Call(fn string, m int, o pr.Opts) string {
 
 func (t *tdrv) Par(msgs [][]int) []string { // the in-memory driver is single-threaded by contract: run the queues in turn
 	var r []string
+	if len(msgs) == 2 && len(msgs[1]) == 1 && msgs[1][0] == -1 { // BurstStop marker
+		ret := "nil"
+		for _, m := range msgs[0] {
+			ret = t.Call("Send", m, pr.Opts{})
+		}
+		t.Call("Stop", 0, pr.Opts{})
+		return []string{ret}
+	}
 	for _, q := range msgs {
 		for _, m := range q {
 			r = append(r, t.Call("Send", m, pr.Opts{}))
